@@ -46,7 +46,7 @@ def shards(tier, seed):
 
 
 def opts():
-    return gen.Opts(sub_names=True, headers=True, multi_headers=True, custom_names=True, port_types=True, services=(1, 3), methods=(1, 4), namespaces=3)
+    return gen.Opts(sub_names=True, headers=True, multi_headers=True, custom_names=True, port_types=True, services=(1, 3), methods=(1, 4), namespaces=3, cross_ns_inheritance=True)
 
 
 def universe(seed, uid):
